@@ -637,7 +637,7 @@ class Drillhole(Points):
 
             # check if its text data, and defined nan array if so
             if values.dtype.kind in ["U", "S"]:
-                nan_values = np.array([""] * self.n_cells)  # type: ignore
+                nan_values = np.array([""] * self.n_cells, dtype=values.dtype)  # type: ignore
             else:
                 nan_values = np.ones(self.n_cells) * np.nan
 
